@@ -48,6 +48,16 @@ Theorem C11_subkey_bound : forall c P evs e, read_entity c P evs = Ok e ->
 Proof. exact subkey_bound. Qed.
 Print Assumptions C11_subkey_bound.
 
+(* the signature whose usage and lifetime a subkey SHOWS (for a revoked subkey: the binding signature
+   kept beside the revocation) is likewise a binding or revocation accepted under the primary key *)
+Theorem C11_subkey_shown_bound : forall c P evs e, read_entity c P evs = Ok e ->
+  forall sk, In sk (e_subkeys e) ->
+    exists s, subkey_followed_by evs (sk_key sk) s /\ s_core s = sk_shown c sk /\
+      (sc_type (sk_shown c sk) = pgp_sigtype_subkey_binding \/ sc_type (sk_shown c sk) = pgp_sigtype_subkey_revocation) /\
+      sig_accepted c P (e_primary e) (binding_hash_input (e_primary e) (sk_key sk) ++ suffix (sk_shown c sk)) (sk_shown c sk).
+Proof. exact subkey_shown_bound. Qed.
+Print Assumptions C11_subkey_shown_bound.
+
 (* the key material in those messages is the packet body as it appears in the input *)
 Theorem C11_reserialise_exact : forall ecok body k rest, bytes_ok body = true ->
   parse_public_key fixed ecok body = Ok (k, rest) -> key_body k ++ rest = body.
@@ -100,9 +110,7 @@ Print Assumptions C11_parsed_lengths.
    signature VALUES the holder produced verify: strong unforgeability, true of RSA PKCS#1 v1.5 and
    Ed25519, not of DSA / ECDSA where (r, -s) verifies too) the integers of the signature value are
    the original ones as well.  A changed bit in any of those regions of an item therefore makes the
-   item disappear or the key be rejected.  Changes of the primary key itself are outside these two
-   theorems (no standard assumption speaks about verification under a related key); they are
-   covered by the exhaustive single-bit sweep of the check. *)
+   item disappear or the key be rejected.  Changes of the primary key itself: C11_bitflip_primary below. *)
 Theorem C11_bitflip_identity : forall strong c P k0 uids subs evs e,
   flip_sensitive P k0 (genuine_of strong k0 uids subs) ->
   sane_key k0 -> Forall (fun x => lenN (su_uid x) < 4294967296 /\ sane_sig (su_sig x)) uids ->
@@ -126,6 +134,118 @@ Theorem C11_bitflip_subkey : forall strong c P k0 uids subs evs e,
     (strong = true -> sig_values (sk_sig sk) = sig_values (ss_sig x)).
 Proof. exact bitflip_subkey. Qed.
 Print Assumptions C11_bitflip_subkey.
+
+(* ---- the whole packet stream (every octet string, not only plain transferable keys) ---- *)
+
+(* The model gives up on exactly one kind of packet: compressed data (8) with algorithm 2 and a
+   well-formed zlib header.  Everything else - partial and indeterminate lengths, version-3 keys and
+   signatures, packets of OpenPGP messages, user attributes, packets longer than their content -
+   is inside the model, and C11_listed_children / C11_identity_bound / C11_subkey_bound quantify over it. *)
+Theorem C11_modelled_domain : forall c P tag body complete,
+  read_packet c P tag body complete = RUnmod ->
+  tag = 8 /\ exists r, body = 2 :: r /\ zlib_header_ok r = true.
+Proof. exact unmodelled_only_zlib. Qed.
+Print Assumptions C11_modelled_domain.
+
+(* for every octet string the reader accepts: each child of the description is an identity whose
+   user-ID packet is followed by an accepted certification, or a subkey followed by an accepted
+   binding - a user attribute, a version-3 key, a message packet is never listed *)
+Theorem C11_stream_children_bound : forall c P private stream i,
+  pgp_key c P private stream = Ok i ->
+  exists e, read_entity c P (events_of c P stream) = Ok e /\
+    first_key (events_of c P stream) = Some (e_primary e) /\
+    forall child, In child (i_children i) ->
+      (exists id s, In id (e_ids e) /\ child = identity_info c (e_primary e) id /\
+         uid_followed_by (events_of c P stream) (id_name id) s /\ s_core s = id_self id /\
+         is_cert_type (sc_type (id_self id)) = true /\
+         sc_issuer (id_self id) = Some (key_id (p_H P) (e_primary e)) /\
+         sig_accepted c P (e_primary e) (uid_hash_input (e_primary e) (id_name id) ++ suffix (id_self id)) (id_self id)) \/
+      (exists sk s, In sk (e_subkeys e) /\ child = subkey_info c (p_H P) sk /\
+         subkey_followed_by (events_of c P stream) (sk_key sk) s /\ s_core s = sk_sig sk /\
+         sig_accepted c P (e_primary e) (binding_hash_input (e_primary e) (sk_key sk) ++ suffix (sk_sig sk)) (sk_sig sk)).
+Proof. exact stream_children_bound. Qed.
+Print Assumptions C11_stream_children_bound.
+
+(* a packet of a type packet.Read does not know (marker, trust, private use, unassigned) in front of
+   any stream leaves no trace in what ReadEntity sees (RFC 4880 5.8: "such a packet MUST be ignored") *)
+Theorem C11_unknown_packet_skipped : forall c P tag body rest,
+  known_tag tag = false -> tag < 64 -> lenN body < 192 ->
+  events_of c P ((192 + tag) :: lenN body :: body ++ rest) = events_of c P rest.
+Proof. exact unknown_packet_skipped. Qed.
+Print Assumptions C11_unknown_packet_skipped.
+
+(* ---- changes of the primary key itself ---- *)
+
+(* Unconditionally: whenever packet.Read returns a key packet, the body that is hashed for it is,
+   octet for octet, the beginning of the packet body in the input; and every message that is
+   verified for an identity or a subkey begins with 0x99, the 2-octet length and that body of
+   the PRIMARY key.  A change of the primary key body therefore changes every verified message. *)
+Theorem C11_key_body_from_input : forall P tag body complete sub sec k, bytes_ok body = true ->
+  read_packet fixed P tag body complete = RP (PKey sub sec k) -> exists tail, key_body k ++ tail = body.
+Proof. exact key_packet_body_exact. Qed.
+Print Assumptions C11_key_body_from_input.
+
+Theorem C11_messages_begin_with_primary : forall k u sk s,
+  uid_hash_input k u ++ suffix s =
+    (153 :: be16 (lenN (key_body k)) ++ key_body k) ++ (180 :: be32 (lenN u) ++ u) ++ suffix s /\
+  binding_hash_input k sk ++ suffix s =
+    (153 :: be16 (lenN (key_body k)) ++ key_body k) ++ key_hash_input sk ++ suffix s.
+Proof. intros. split; [apply uid_message_prefix | apply binding_message_prefix]. Qed.
+Print Assumptions C11_messages_begin_with_primary.
+
+(* Relative to the named hypothesis
+     any_key_sensitive P genuine := forall c k msg s, sig_accepted c P k msg s -> genuine (sc_hash s) msg (sig_values s)
+   (flip_sensitive for EVERY verification key k, not only the honest one: the statement is about the
+   pair (key, message) - whatever key the check runs under, what it accepts is a message the holder
+   of k0 signed).  For k = k0 this is unforgeability.  For k <> k0 it is no standard assumption, and
+   it is false for a key the adversary makes himself (he can sign anything under his own key - and
+   then HIS fingerprint is displayed, which the property allows); for a key obtained by flipping
+   bits of k0 while the signatures stay as they are it says that the unchanged signature values
+   do not happen to verify under the damaged key material: this is what the exhaustive single-bit
+   sweep over the primary key body tests empirically.  Under it: an accepted entity has the
+   ORIGINAL primary key body (so any change of it makes the key be rejected), because an identity
+   or subkey that is still listed was signed over the CHANGED body, and the holder never signed that. *)
+Theorem C11_bitflip_primary : forall strong c P k0 uids subs evs e,
+  any_key_sensitive P (genuine_of strong k0 uids subs) ->
+  sane_key k0 ->
+  read_entity c P evs = Ok e -> sane_key (e_primary e) ->
+  key_body (e_primary e) = key_body k0.
+Proof. exact bitflip_primary. Qed.
+Print Assumptions C11_bitflip_primary.
+
+Theorem C11_changed_primary_rejected : forall strong c P k0 uids subs evs k1,
+  any_key_sensitive P (genuine_of strong k0 uids subs) ->
+  sane_key k0 -> sane_key k1 ->
+  first_key evs = Some k1 -> key_body k1 <> key_body k0 ->
+  forall e, read_entity c P evs <> Ok e.
+Proof. exact changed_primary_rejected. Qed.
+Print Assumptions C11_changed_primary_rejected.
+
+(* and the listed items are original ones, without assuming that the primary key is unchanged *)
+Theorem C11_bitflip_items_any_key : forall strong c P k0 uids subs evs e,
+  any_key_sensitive P (genuine_of strong k0 uids subs) ->
+  sane_key k0 -> sane_key (e_primary e) ->
+  Forall (fun x => lenN (su_uid x) < 4294967296 /\ sane_sig (su_sig x)) uids ->
+  Forall (fun x => sane_key (ss_key x) /\ sane_sig (ss_sig x)) subs ->
+  read_entity c P evs = Ok e ->
+  (forall i, In i (e_ids e) -> lenN (id_name i) < 4294967296 -> sane_sig (id_self i) ->
+     exists x, In x uids /\ id_name i = su_uid x /\
+       sc_hashed (id_self i) = sc_hashed (su_sig x) /\ sig_header (id_self i) = sig_header (su_sig x) /\
+       (strong = true -> sig_values (id_self i) = sig_values (su_sig x))) /\
+  (forall sk, In sk (e_subkeys e) -> sane_key (sk_key sk) -> sane_sig (sk_sig sk) ->
+     exists x, In x subs /\ key_body (sk_key sk) = key_body (ss_key x) /\
+       sc_hashed (sk_sig sk) = sc_hashed (ss_sig x) /\ sig_header (sk_sig sk) = sig_header (ss_sig x) /\
+       (strong = true -> sig_values (sk_sig sk) = sig_values (ss_sig x))).
+Proof. exact bitflip_items_any_key. Qed.
+Print Assumptions C11_bitflip_items_any_key.
+
+(* any_key_sensitive implies flip_sensitive for every key, and is satisfiable together with an accepted key *)
+Theorem C11_any_key_sensitive_example :
+  (forall P k0 genuine, any_key_sensitive P genuine -> flip_sensitive P k0 genuine) /\
+  any_key_sensitive ex_strict (genuine_of false ex_key [mksu (bs "a") (s_core ex_sig)] []) /\
+  is_ok (read_entity fixed ex_strict ex_evs) = true.
+Proof. exact (conj any_key_sensitive_flip ex_any_key_sensitive). Qed.
+Print Assumptions C11_any_key_sensitive_example.
 
 (* the hypothesis is satisfiable together with an accepted key *)
 Theorem C11_flip_sensitive_example :
